@@ -1,3 +1,4 @@
-import GeffModel.KVJson
-/-! driver of C05: the key-view model of the write path (see GeffModel/KVJson.lean for the protocol) -/
-def main : IO Unit := Geff.Proto.run Geff.KVJson.handle
+import GeffModel.KVTorn
+/-! driver of C05: the key-view model of the write path, the verdict of the final validation taken on the
+committed store (see GeffModel/KVTorn.lean; protocol as in GeffModel/KVJson.lean) -/
+def main : IO Unit := Geff.Proto.run Geff.KVJson.handleT
